@@ -218,12 +218,16 @@ Fixpoint keys_distinct (l : list (N * N)) : bool :=
 (* boolean oracle on an OBSERVED merged tree [ns] for the input rows [rows]:
    every node of the tree carries the wrapped sums of the rows with its key, every key of the rows
    is a node of the tree, no (parent,id) occurs twice *)
+(* has_key, sum_self and sum_total of one key in a single pass *)
+Definition key_sums (rows : list row) (p i : N) : bool * Z * Z :=
+  fold_right (fun r acc => if key_eqb r p i
+                           then (true, (snd (fst acc) + r_self r)%Z, (snd acc + r_total r)%Z) else acc)
+             (false, 0%Z, 0%Z) rows.
 Definition merged_is_sum (rows : list row) (ns : list (N * list tnode)) : bool :=
   let out := rows_of ns in
   keys_distinct (map (fun r => (r_parent r, r_id r)) out) &&
-  forallb (fun o => has_key rows (r_parent o) (r_id o) &&
-                    Z.eqb (r_self o) (wrap64 (sum_self rows (r_parent o) (r_id o))) &&
-                    Z.eqb (r_total o) (wrap64 (sum_total rows (r_parent o) (r_id o)))) out &&
+  forallb (fun o => let '(b, s, t) := key_sums rows (r_parent o) (r_id o) in
+                    b && Z.eqb (r_self o) (wrap64 s) && Z.eqb (r_total o) (wrap64 t)) out &&
   forallb (fun r => has_key out (r_parent r) (r_id r)) rows.
 
 (* conservation over row multisets (same shape as in Pprof.v, one sample type) *)
